@@ -342,8 +342,10 @@ def build_evidence(pid, mod, ctx: Ctx, tier, seed, wall, new_viol, known_hit,
 def _apply_variant(root: str, v: dict) -> Optional[str]:
     """returns None if applied, else reason for skipping"""
     if v.get("patch"):
-        pr = subprocess.run(["patch", "-p1", "-s", "--no-backup-if-mismatch",
-                             "-i", v["patch"]], cwd=root,
+        # only the analysed packages exist in the scratch copy: parts of the
+        # patch that touch tests / packaging / docs are left out
+        pr = subprocess.run(["git", "apply", "--include=evo/*",
+                             "--include=contrib/*", v["patch"]], cwd=root,
                             capture_output=True, text=True)
         if pr.returncode != 0:
             return "patch does not apply to this tree"
